@@ -1,5 +1,6 @@
 # C17 — file-scraping recovery (rfigc --filescraping_recovery): correspondence of HashChk.scrape with
 # the real `rfigc.main` on real temp trees, and the property predicate evaluated on the tool's output tree.
+import common
 import copy, json, os, shutil, tempfile
 from props import hashchk_lib as L
 from props.hashchk_lib import HarnessError
@@ -67,7 +68,7 @@ def exec_case(ctx, case):
         O = os.path.join(D, 'out', case.get('oroot', 'O'))
         os.makedirs(O)
         cwd = os.path.join(D, 'cwd_run')
-        args = ['-i', S, '-d', db, '--filescraping_recovery', '-o', O, '--silent']
+        args = ['-i', S, '-d', db, '--filescraping_recovery', '-o', O, '--silent'] + (['-v'] if common.every_fourth(case) else [])
         if case.get('log', True):
             args += ['-l', os.path.join(D, 'cwd_gen', 'scrape.log')]
         res = L.run_rfigc(args, cwd)
